@@ -334,6 +334,14 @@ func (fr *frame) scanCallMods(m *loopMods, info *types.Info, call *ast.CallExpr,
 		}
 	}
 	if fn == nil {
+		if id, ok := fun.(*ast.Ident); ok && fr.fn != nil {
+			if c := reg.contracts[funcKey(fr.fn.Origin())+"#"+id.Name]; c != nil {
+				if sig, ok := info.TypeOf(id).Underlying().(*types.Signature); ok {
+					fr.contractMods(m, c, fr.pkg, sig, nil)
+					return
+				}
+			}
+		}
 		// call of a function value: contract attached to its named function type (`func (f T) call(...)`)
 		if t := info.TypeOf(call.Fun); t != nil {
 			if n, ok := t.(*types.Named); ok && n.Obj().Pkg() != nil {
